@@ -29,6 +29,7 @@ type Obligation struct {
 	Model   string
 	Note    string
 	Syntactic bool
+	Cand    bool    // undecided full query with a candidate counterexample from the instantiated one: decided by the retry pass
 	Before  []*Term // for "casecover": the same case before the callee's postconditions were assumed
 }
 
